@@ -1577,12 +1577,14 @@ def c19(ctx):
     import random
     tlc_must_hold(ctx, "AppCache", "AppCache_MC.cfg")
     tlc_must_fail(ctx, "AppCache", "AppCache_Attack_CacheHead.cfg")
+    tlc_must_fail(ctx, "AppCache", "AppCache_Attack_CacheFirst.cfg")   # the cache consulted before the request is routed
     gen = tlc_generate(ctx, "AppCacheGen", "AppCacheGen.cfg", "cache_sequences.json")
     seqs = json.load(open(gen))["sequences"]
     seqs.sort(key=lambda q: json.dumps(q, sort_keys=True))
     if ctx.tier != "thorough":
-        must = [q for q in seqs if [o["m"] for o in q] in (["HEAD", "GET"], ["HEAD", "GET", "GET"], ["GET", "GET", "GET"], ["GET", "HEAD", "GET"], ["POST", "GET", "GET"])
+        must = [q for q in seqs if [o["m"] for o in q] in (["HEAD", "GET"], ["HEAD", "GET", "GET"], ["GET", "GET", "GET"], ["GET", "HEAD", "GET"], ["POST", "GET", "GET"], ["GET", "QUIET", "GET"])
                 and not any(o["cc"] for o in q) and all(o["u"] == "u1" for o in q) and (all(o["st"] == 200 for o in q) or q[0]["st"] == 206)]
+        must += [q for q in seqs if [(o["m"], o["u"]) for o in q] in ([("GET", "u1"), ("GET", "u2")], [("GET", "u2"), ("GET", "u1"), ("GET", "u2")]) and not any(o["cc"] for o in q) and all(o["st"] == 200 for o in q)]
         rest = [q for q in seqs if q not in must]
         seqs = must + random.Random(ctx.seed * 31 + 5).sample(rest, 20)
     qpath = os.path.join(ctx.scratch, "cache_cases.json")
